@@ -33,6 +33,11 @@ def trees(rng):
         sc.d(b'/W').d(b'/W/S'); sc.opts = ['r']; sc.extra = ['--block-size', '4096']; sc.paths = [b'S', b'DEST']; sc.tag = 'sparse-many-blocks'; sc.only_workers = (1, 2)
         sc.sparse = (b'/W/S/sp', [(0, 262144 * 5)], 262144 * 5 + 8 * 1048576)
         out.append(sc)
+        # a sparse file whose LAST extent is preallocated but unwritten (data, hole, fallocate region): extent paging must end
+        sc = treerun.Scn(); sc.driver = driver
+        sc.d(b'/W').d(b'/W/S').f(b'/W/S/plain'); sc.opts = ['r']; sc.extra = ['--block-size', '65536']; sc.paths = [b'S', b'DEST']; sc.tag = 'prealloc-tail'; sc.only_workers = (1, 4)
+        sc.prealloc = b'/W/S/pre.bin'
+        out.append(sc)
         # every worker dies silently (a FIFO whose destination name is an existing directory: no Error update) while the
         # walker still has hundreds of entries to send
         sc = treerun.Scn(); sc.driver = driver
@@ -51,6 +56,25 @@ def trees(rng):
 def run_with_sparse(base, sc, limit):
     """treerun.run, plus an optional big sparse file written after materialisation (the tree model is not consulted here)"""
     sp = getattr(sc, 'sparse', None)
+    pre = getattr(sc, 'prealloc', None)
+    if pre:
+        import subprocess
+        root = base + '/R'
+        subprocess.run(f'rm -rf {root}', shell=True); os.makedirs(root)
+        treerun.materialise(root, sc)
+        fd = os.open(root + pre.decode(), os.O_CREAT | os.O_RDWR, 0o644)
+        os.ftruncate(fd, 8 << 20); os.pwrite(fd, b'head' * 1024, 0); os.posix_fallocate(fd, 6 << 20, 2 << 20)
+        # 40 more preallocated, unwritten islands: more than one FIEMAP page of unwritten extents in a row
+        os.close(fd)
+        fd = os.open(root + pre.decode() + '2', os.O_CREAT | os.O_RDWR, 0o644)
+        os.ftruncate(fd, 64 << 20); os.pwrite(fd, b'head' * 1024, 0)
+        for q in range(40):
+            os.posix_fallocate(fd, (4 + q) << 20, 8192)
+        os.close(fd)
+        o = treerun.Run(); o.root = root; o.argv = treerun.argv(root, sc)
+        os.makedirs(base + '/aux', exist_ok=True)
+        o.res = scen.run_xcp(base + '/aux', o.argv, cwd=treerun.real(root, sc.cwd), trace=True, timeout=limit)
+        return o
     if not sp:
         return treerun.run(base, sc, trace=True, timeout=limit)
     import subprocess
@@ -83,7 +107,7 @@ def run(ctx):
                 opened = [e for e in o0.res.trace if e['sys'] == 'openat' and e['ret'] >= 0 and any(x in (e.get('fdpath') or '') for x in ('/fifo', '/sock', 'onlyfifo'))]
                 if opened:
                     ctx.violation(f'{sc.tag}-{sc.driver}-opened.json', dict(events=opened[:5]), 'C07/C14: a FIFO or socket source was opened')
-                if workers != 1 or sc.tag == 'all-workers-die-silently':
+                if workers != 1 or sc.tag in ('all-workers-die-silently', 'prealloc-tail'):
                     continue
                 # a single fault at every step-call, each under a perturbed schedule
                 occ, plans = {}, []
@@ -108,6 +132,18 @@ def run(ctx):
                     if o.res.cls == 'hang':
                         ctx.violation(f'{sc.tag}-{sc.driver}-fault-{j}-hang.json', dict(tree=sc.tag, driver=sc.driver, workers=sc.workers, plan=plan, argv=[repr(x) for x in o.argv]),
                                       f'C07: xcp hung after a failing {site} ({sc.driver}, {sc.workers} workers, plan {plan})')
+        # a descriptor limit so low that opening the source and the destination cannot both succeed, or that several workers
+        # each hold one descriptor and wait for a second: the run must END (with an error), never wait for ever
+        d = base + '/lowfd'; shutil.rmtree(d, ignore_errors=True); os.makedirs(d + '/S')
+        for k in range(60):
+            open(f'{d}/S/f{k}', 'wb').write(b'x' * 100)
+        for driver in ('parfile', 'parblock'):
+            for nf in ((4, 5, 6, 8, 10, 12) if ctx.quick else (3, 4, 5, 6, 7, 8, 9, 10, 11, 12, 14, 16, 20)):
+                for argv, what in ((['--driver', driver, d + '/S/f0', d + f'/out-{driver}-{nf}'], 'one-file'), (['-r', '--driver', driver, '-w', '16', d + '/S', d + f'/tree-{driver}-{nf}'], 'tree-16-workers')):
+                    r = scen.run_xcp(d, argv, timeout=LIMIT, env_extra={'SUP_CHILD_NOFILE': str(nf)})
+                    ctx.count(f'low_nofile.{what}.{r.cls}'); ctx.case(('low-nofile', driver, nf, what), True, sample=dict(limit=nf, driver=driver, what=what, exit=r.cls) if nf == 6 and driver == 'parfile' else None)
+                    if r.cls == 'hang':
+                        ctx.violation(f'low-nofile-{driver}-{nf}-{what}.json', dict(argv=argv, nofile=nf), f'C07: xcp did not finish within {LIMIT}s with RLIMIT_NOFILE={nf} ({driver}, {what})')
         # a source whose size lies (sysfs: st_size 4096, a few bytes delivered) on another file system (copy_file_range: EXDEV)
         sysf = '/sys/devices/system/cpu/online'
         if os.path.exists(sysf):
@@ -138,8 +174,8 @@ def run(ctx):
             ctx.case(('lib', i, driver, tuple(plan)), True, sample=dict(argv=argv, plan=plan, closed=closed, returned=returned) if i in (0, 3) else None)
             if r.cls == 'hang' or not closed or not returned:
                 ctx.violation(f'lib-{i}.json', dict(argv=argv, plan=plan, stdout=r.stdout_full[-500:], cls=r.cls), f'C07: library client: channel closed={closed}, copy returned={returned}, {r.cls} ({driver}, plan {plan})')
-    ctx.cov['rule'] = ('trees {FIFOs+sockets+empty dirs, empty tree, a sole FIFO, 60 files + a multi-block file, a FIFO at the destination under -n} x driver x workers {1,64} (thorough 1,2,3,8,64); '
-                       f'then one injected fault at each step-call (quick: 30 sampled per tree) under a seeded perturbed schedule with random worker count; library probe with ChannelUpdater. Time limit {LIMIT}s. '
+    ctx.cov['rule'] = ('trees {FIFOs+sockets+empty dirs, empty tree, a sole FIFO, 60 files + a multi-block file, a FIFO at the destination under -n, a sparse file ending in preallocated unwritten extents} x driver x workers {1,64} (thorough 1,2,3,8,64); '
+                       f'then one injected fault at each step-call (quick: 30 sampled per tree) under a seeded perturbed schedule with random worker count; library probe with ChannelUpdater; RLIMIT_NOFILE 4..12 for one file and for a tree with 16 workers. Time limit {LIMIT}s. '
                        'distinct = distinct (tree, driver, workers, plan)')
     ctx.assumptions += ['a hang is observed as exceeding the wall-clock limit (25 s for runs that normally take milliseconds)']
 
